@@ -20,8 +20,8 @@ def c1(ctx):
     mutate.encodings_table(ctx)
     mutate.encoding_chain(ctx)
     mutate.mutate_targets_and_encoding(ctx)
-    fwd.fwd_options(ctx, ["try_encodings", "strict", "filesystem"], floor=6, scope=["simfile:open", "simfile:open_with_detected_encoding", "simfile:mutate"])
-    fwd.fwd_kwargs(ctx, floor=8)
+    fwd.fwd_options(ctx, ["try_encodings", "filesystem"], floor=3, scope=["simfile:open", "simfile:open_with_detected_encoding", "simfile:mutate"])
+    fwd.fwd_kwargs(ctx, floor=3, scope=["simfile:open", "simfile:open_with_detected_encoding", "simfile:mutate"])
 
 
 def c3(ctx):
@@ -31,7 +31,7 @@ def c3(ctx):
 def c4(ctx):
     from ..rules import serial
     serial.str_is_serialize(ctx)
-    mutate.mutate_order(ctx)
+    mutate.mutate_order(ctx, failure_clauses=False)
 
 
 def c5(ctx):
